@@ -2100,6 +2100,23 @@ def Executor_call_method(self, m, st, args, kwargs, node, ev):
         h = self.contract.handlers.get("opaque." + m.name)
         if h:
             return h(self, st, o, args, kwargs, node, ev)
+    if isinstance(o, list) and m.name == "insert" and len(args) == 2 and isinstance(simp(args[0]) if is_z3(args[0]) else args[0], int):
+        # lists are immutable values: insert with a literal index rebinds every local / attribute that holds this list
+        i = int(simp(args[0]) if is_z3(args[0]) else args[0])
+        new = list(o)
+        new.insert(i, args[1])
+        hit = False
+        for k2, v2 in list(st.env.items()):
+            if v2 is o:
+                st.env[k2] = new
+                hit = True
+        for k2, v2 in list(st.fields.items()):
+            if v2 is o:
+                st.fields[k2] = new
+                hit = True
+        if not hit:
+            raise Outside("insert into a list that is neither a local variable nor an attribute")
+        return None
     if isinstance(o, list) and m.name == "append" and len(args) == 1:
         hook = self.contract.handlers.get("list.append")
         if hook:
